@@ -181,7 +181,11 @@ LRecTemplates ==
   { <<"rec", <<"memo", <<"or", <<"then", Ref1, <<"then", J("+"), J("a")>>>>, J("a")>>>>>>,
     <<"rec", <<"or", <<"then", <<"memo", Ref1>>, <<"then", J("+"), J("a")>>>>, J("a")>>>>,
     <<"rec", <<"memo", <<"or", <<"then", Ref1, J("a")>>, J("a")>>>>>>,
-    <<"rec", <<"memo", <<"or", <<"map", <<"then", Ref1, <<"then", J("+"), Ref1>>>>, "f">>, J("a")>>>>>> }
+    <<"rec", <<"memo", <<"or", <<"map", <<"then", Ref1, <<"then", J("+"), Ref1>>>>, "f">>, J("a")>>>>>>,
+    \* the recursion passes through a context scope: the memo table is the parse's, not the scope's
+    <<"rec", <<"memo", <<"or", <<"then", <<"withctx", VI(0), Ref1>>, <<"then", J("+"), J("a")>>>>, J("a")>>>>>>,
+    <<"rec", <<"memo", <<"or", <<"then", <<"ignctx", <<"empty">>, Ref1>>, <<"then", J("+"), J("a")>>>>, J("a")>>>>>>,
+    <<"rec", <<"or", <<"then", <<"mapctx", "num", <<"memo", Ref1>>>>, <<"then", J("+"), J("a")>>>>, J("a")>>>> }
 (* repetition shapes (C02): every bound / flag combination over a few item and separator      *)
 (* parsers, each also followed by a rest-capturing continuation so that the position the      *)
 (* repetition leaves behind is observable                                                      *)
